@@ -287,6 +287,7 @@ class _GenerateRenderMethod:
 
         this could be the main render() method or that of a top-level def."""
 
+        self.printer.start_source(node.lineno)
         if self.in_def:
             decorator = node.decorator
             if decorator:
@@ -294,7 +295,6 @@ class _GenerateRenderMethod:
                     "@runtime._decorate_toplevel(%s)" % decorator
                 )
 
-        self.printer.start_source(node.lineno)
         self.printer.writelines(
             "def %s(%s):" % (name, ",".join(args)),
             # push new frame, assign current frame to __M_caller
@@ -346,6 +346,7 @@ class _GenerateRenderMethod:
     def write_inherit(self, node):
         """write the module-level inheritance-determination callable."""
 
+        self.printer.start_source(node.lineno)
         self.printer.writelines(
             "def _mako_inherit(template, context):",
             "_mako_generate_namespaces(context)",
@@ -602,6 +603,7 @@ class _GenerateRenderMethod:
 
         namedecls = node.get_argument_expressions()
 
+        self.printer.start_source(node.lineno)
         decorator = node.decorator
         if decorator:
             self.printer.writeline(
@@ -662,6 +664,8 @@ class _GenerateRenderMethod:
                 )
 
         if buffered or filtered or cached:
+            if node.lineno:
+                self.printer.start_source(node.lineno)
             if buffered or cached:
                 # in a caching scenario, don't try to get a writer
                 # from the context after popping; assume the caching
@@ -707,6 +711,7 @@ class _GenerateRenderMethod:
         """write a post-function decorator to replace a rendering
         callable with a cached version of itself."""
 
+        self.printer.start_source(node_or_pagetag.lineno)
         self.printer.writeline("__M_%s = %s" % (name, name))
         cachekey = node_or_pagetag.parsed_attributes.get(
             "cache_key", repr(name)
@@ -884,6 +889,7 @@ class _GenerateRenderMethod:
         for n in node.nodes:
             n.accept_visitor(self)
         if filtered:
+            self.printer.start_source(node.lineno)
             self.printer.writelines(
                 "finally:",
                 "__M_buf, __M_writer = context._pop_buffer_and_writer()",
@@ -959,6 +965,7 @@ class _GenerateRenderMethod:
         self.visitCallTag(node)
 
     def visitCallTag(self, node):
+        self.printer.start_source(node.lineno)
         self.printer.writeline("def ccall(caller):")
         export = ["body"]
         callable_identifiers = self.identifiers.branch(node, nested=True)
@@ -993,6 +1000,7 @@ class _GenerateRenderMethod:
         self.identifier_stack.pop()
 
         bodyargs = node.body_decl.get_argument_expressions()
+        self.printer.start_source(node.lineno)
         self.printer.writeline("def body(%s):" % ",".join(bodyargs))
 
         # TODO: figure out best way to specify
@@ -1010,6 +1018,7 @@ class _GenerateRenderMethod:
         self.write_def_finish(node, buffered, False, False, callstack=False)
         self.printer.writelines(None, "return [%s]" % (",".join(export)), None)
 
+        self.printer.start_source(node.lineno)
         self.printer.writelines(
             # push on caller for nested call
             "context.caller_stack.nextcaller = "
